@@ -1,0 +1,84 @@
+//go:build verif
+
+package spec_2022
+
+import (
+	"time"
+
+	enc "github.com/named-data/ndnd/std/encoding"
+)
+
+// C13: generated encoders — "the number of bytes written equals the announced length, every write in bounds".
+// Hand-written instance for one small model (MetaInfo); the schema proposal that generalises the
+// safety part to every generated encoder is in encoders.schema (see the report).
+//
+// The spec functions are written from the TLV layout in definitions.go
+//   MetaInfo ::= [ContentType 0x18 natural] [FreshnessPeriod 0x19 time(ms, natural)] [FinalBlockId 0x1a binary]
+// and the NDN TLV rules (type < 253 takes one byte; NonNegativeInteger takes 1/2/4/8 bytes; TLV-LENGTH is a
+// variable-length number), not from the generated code.
+
+// size of a NonNegativeInteger (shortest of 1, 2, 4, 8 bytes)
+func specNatLen(x uint64) int {
+	switch {
+	case x <= 0xff:
+		return 1
+	case x <= 0xffff:
+		return 2
+	case x <= 0xffffffff:
+		return 4
+	}
+	return 8
+}
+
+// an optional natural-number field with a one-byte type: T(1) L(1) V(1|2|4|8), or nothing
+func specOptNatLen(p *uint64) int {
+	if p == nil {
+		return 0
+	}
+	return 2 + specNatLen(*p)
+}
+
+func specOptTimeLen(p *time.Duration) int {
+	if p == nil {
+		return 0
+	}
+	return 2 + specNatLen(uint64(*p/time.Millisecond))
+}
+
+// a binary field with a one-byte type: T(1) L(var) V, or nothing if the slice is nil
+func specBinLen(b []byte) int {
+	if b == nil {
+		return 0
+	}
+	return 1 + enc.SpecTLLen(uint64(len(b))) + len(b)
+}
+
+func specMetaInfoLen(v *MetaInfo) int {
+	return specOptNatLen(v.ContentType) + specOptTimeLen(v.FreshnessPeriod) + specBinLen(v.FinalBlockID)
+}
+
+// A-MEM: a byte slice in memory is shorter than 2^48 bytes.
+func specFits(b []byte) bool { return len(b) <= 281474976710656 }
+
+//@ func (*MetaInfoEncoder).Init
+//@   requires value != nil
+//@   assume specFits(value.FinalBlockID)
+//@   modifies encoder.length
+//@   ensures [announced] int(encoder.length) == specMetaInfoLen(value) && encoder.length <= 281474976710700
+
+// EncodeInto: given a buffer of exactly the announced length, every write is in bounds (all #idx/#slice
+// obligations) and the three TLVs are laid out back to back, the last one ending exactly at len(buf):
+// bytes written == announced length.
+//
+//@ func (*MetaInfoEncoder).EncodeInto
+//@   requires value != nil && len(buf) == int(encoder.length) && int(encoder.length) == specMetaInfoLen(value)
+//@   requires specFits(value.FinalBlockID) && sliceArr(buf) != sliceArr(value.FinalBlockID)
+//@   modifies buf[*]
+//@   ensures [ct] value.ContentType != nil ==> buf[0] == 24 && int(buf[1]) == specNatLen(*value.ContentType) && enc.specNatVal(buf, 2, specNatLen(*value.ContentType)) == *value.ContentType
+//@   ensures [fp] value.FreshnessPeriod != nil ==> buf[specOptNatLen(value.ContentType)] == 25 && int(buf[specOptNatLen(value.ContentType)+1]) == specNatLen(uint64(*value.FreshnessPeriod/time.Millisecond)) && enc.specNatVal(buf, specOptNatLen(value.ContentType)+2, specNatLen(uint64(*value.FreshnessPeriod/time.Millisecond))) == uint64(*value.FreshnessPeriod/time.Millisecond)
+//@   ensures [fb] value.FinalBlockID != nil ==> buf[specOptNatLen(value.ContentType)+specOptTimeLen(value.FreshnessPeriod)] == 26 && enc.SpecTLVal(buf, specOptNatLen(value.ContentType)+specOptTimeLen(value.FreshnessPeriod)+1) == uint64(len(value.FinalBlockID)) && enc.SpecTLSize(buf, specOptNatLen(value.ContentType)+specOptTimeLen(value.FreshnessPeriod)+1) == enc.SpecTLLen(uint64(len(value.FinalBlockID)))
+//@   ensures [fbv] value.FinalBlockID != nil ==> bytesAt(buf, len(buf)-len(value.FinalBlockID), value.FinalBlockID)
+
+//@ func (*MetaInfoEncoder).Encode
+//@   requires value != nil && int(encoder.length) == specMetaInfoLen(value) && encoder.length <= 281474976710700 && specFits(value.FinalBlockID)
+//@   ensures len(result) == 1 && len(result[0]) == specMetaInfoLen(value) && fresh(result) && fresh(result[0])
